@@ -12,6 +12,8 @@ classic operator set, up to the named adapters of `ClvmModel/Spec/Ref.lean`.
 Lemmas live in `ClvmProofs/Lemmas/Ref*.lean`; this file only states the property's theorems.
 -/
 import ClvmProofs.Lemmas.RefOps
+import ClvmProofs.Lemmas.RefPath
+import ClvmProofs.Lemmas.RefMachine
 
 namespace Clvm.Props.C01
 open Clvm Clvm.Interp Clvm.Ref
@@ -116,6 +118,55 @@ theorem ref_op_eq_lognot (m : Nat) (a : Val) (c : Ctr) (hw : a.wf = true) (hp : 
 
 theorem ref_op_eq_not (m : Nat) (a : Val) (c : Ctr) (hw : a.wf = true) (hp : Proper a) :
     OpAgree m (Interp.opNot 0 m a c) (Ref.opNot a.erase) := opNot_agree m a c hw hp
+
+/-! ### environment paths -/
+
+/-- **`path_eq`**: for every path atom (any bytes: leading zero bytes, empty, arbitrary length) and
+every environment, `traverse_path` of the implementation model and of the reference return the same
+cost and the same sub-tree, and fail with "path into atom" together. -/
+theorem path_eq (b : Bytes) (env : Val) :
+    PathAgree (Interp.traversePath b env) (Ref.traversePath b env.erase) := path_agree b env
+
+/-- the fast path (`traverse_path_fast`, taken for inline small atoms) is the same function, so the
+agreement holds for the path lookup the evaluator actually performs -/
+theorem path_eq_fast (b : Bytes) (h : (Val.atom b true).wf = true) (env : Val) :
+    PathAgree (Interp.traversePathFast (Alloc.beNat b) env) (Ref.traversePath b env.erase) := by
+  rw [traverse_fast_wf b h env]; exact path_agree b env
+
+/-! ### adapters -/
+
+/-- `Adapter.floorDiv` changes the reference's `/` exactly where the floor quotient is `-1` with a
+non-zero remainder -/
+theorem floorDiv_region (args : Tree) :
+    Adapter.floorDiv args = Ref.opDiv args ∨
+    ∃ i0 l0 i1 l1, argsAsIntList args 2 = .ok [(i0, l0), (i1, l1)] ∧ i1 ≠ 0 ∧
+      Int.fdiv i0 i1 = -1 ∧ Int.fmod i0 i1 ≠ 0 := Ref.floorDiv_region args
+
+/-! ### whole runs
+
+`Ref.Statement` (`Lemmas/RefMachine.lean`) is the property at machine level: for every program,
+environment and budget, whenever both machines terminate, the adapted reference stays inside the
+classic operator set and the model hits no allocator limit, both succeed with the same cost and
+tree or both fail.  It is **false of the current crate** (finding `C01-lenient-lists`): -/
+
+/-- `((16 . 5))` is rejected by the Python and by the adapted reference … -/
+theorem C01_witness_reference :
+    Ref.run 100 witness1 (.atom []) none = some (.error .arg) ∧
+    adaptedRun false 100 witness1 (.atom []) 0 = some (.error .arg) ∧
+    Ref.run 100 witness2 (.atom []) none = some (.error .arg) ∧
+    adaptedRun false 100 witness2 (.atom []) 0 = some (.error .arg) :=
+  ⟨witness1_python, witness1_adapted, witness2_python, witness2_adapted⟩
+
+/-- … and evaluated by the implementation model: `((16 . 5))` ↦ `0` at cost 189,
+`((16) 1 2 . 3)` ↦ `3` at cost 845 (the crate returns the same: oracle `ref_findings`) -/
+theorem C01_witness_model :
+    (modelRun 100 witness1 (.atom []) 0).map (fun r => r.map (fun x => (x.1, x.2.1.erase))) =
+      some (.ok (189, .atom [])) ∧
+    (modelRun 100 witness2 (.atom []) 0).map (fun r => r.map (fun x => (x.1, x.2.1.erase))) =
+      some (.ok (845, .atom [3])) := ⟨witness1_model, witness2_model⟩
+
+/-- hence the full statement fails -/
+theorem C01_witness : ¬ Ref.Statement := not_statement
 
 /-- the hypotheses are satisfiable by every tree: `Val.ofTree args` is well-formed and erases to
 `args`; a nil-terminated list is `Proper` -/
